@@ -46,3 +46,28 @@ Definition check_sel (c : sel_case) : N :=
        && list_eqb N.eqb hints (countdown (CN n k) (S (length vals)) ++ [0%N])
      else match vals with [] => true | _ => false end) in
   ((if agree then 1 else 0) + (if spec then 2 else 0) + (if cls then 4 else 0))%N.
+
+(* prefix mode for larger n: only the first steps of the iterator are run (the hint is recorded before each call and once after) *)
+Definition check_sel_prefix (c : sel_case) : N :=
+  let '(n, k, hints, vals, b, consistent) := c in
+  let '(mh, mv) := it_runN (length vals) n k None in
+  let agree := list_eqb optN_eqb mh hints && list_eqb (list_eqb Nat.eqb) mv vals
+               && optN_eqb (binom64 (N.of_nat n) (N.of_nat k)) b && consistent in
+  let cls := (1 <=? k) && (k <=? n) in
+  let spec :=
+    N.eqb b (CN n k) &&
+    (if cls then
+       forallb (validb n k) vals && strictly_sorted vals && (N.of_nat (length vals) <=? CN n k)%N
+       && list_eqb N.eqb hints (countdown (CN n k) (S (length vals)))
+     else match vals with [] => true | _ => false end) in
+  ((if agree then 1 else 0) + (if spec then 2 else 0) + (if cls then 4 else 0))%N.
+
+(* binom alone: (n, k, Some result | None = the implementation panicked on arithmetic overflow) *)
+Definition binom_case := (nat * nat * option N)%type.
+Definition check_binom (c : binom_case) : N :=
+  let '(n, k, b) := c in
+  let model := binom64 (N.of_nat n) (N.of_nat k) in
+  let agree := match model, b with Some x, Some y => N.eqb x y | None, None => true | _, _ => false end in
+  let cls := n <=? 57 in
+  let spec := if cls then match b with Some y => N.eqb y (CN n k) | None => false end else true in
+  ((if agree then 1 else 0) + (if spec then 2 else 0) + (if cls then 4 else 0))%N.
